@@ -57,8 +57,9 @@ def jsonable_events(events):
             out.append(["state_result", e[1], list(e[2]),
                         None if amps is None else [[a.real, a.imag] for a in amps]])
         else:
-            out.append([from_interp(x) if not isinstance(x, (str, tuple, list)) else
-                        (list(x) if isinstance(x, tuple) else x) for x in e])
+            # event payloads are already Python-level values (ints signed/unsigned per result kind)
+            out.append([x if isinstance(x, (str, list, bool, int, float)) or x is None else
+                        (list(x) if isinstance(x, tuple) else from_interp(x)) for x in e])
     return out
 
 
